@@ -1055,6 +1055,7 @@ class F:
     none_as_undefined: bool = False
     undefined: bool = False
     undef_nodefault: bool = False  # with undefined: Union[X, UndefinedType] without default (required key; Undefined only by construction)
+    undef_annotated: bool = False  # with undefined: the union is wrapped in Annotated[..., schema(description=...)] (documentation only)
     init_false: bool = False
     initvar: bool = False
     fbod: bool = False
@@ -1171,6 +1172,8 @@ class ObjectT(T):
         a = f.t.ann()
         if f.undefined:
             a = f"Union[{a}, UndefinedType]"
+            if f.undef_annotated:
+                a = f"Annotated[{a}, schema(description='may be undefined')]"
         return a
 
     def md_src(self, f):
@@ -1270,7 +1273,12 @@ class ObjectT(T):
                 lines.append("    def __post_init__(self, {}):".format(", ".join(f.name for f in initvars)))
                 for f in initvars:
                     lines.append(f"        object.__setattr__(self, 'seen_{f.name}', {f.name})")
-            if self.dep_req and getattr(self, "dep_req_groups", None):
+            if self.dep_req and getattr(self, "dep_req_split", None):
+                # two declarations for the same class, sharing a requiring field: the rules add up (self.dep_req is their union)
+                first, second = self.dep_req_split
+                lines.append("    _dr = dependent_required({" + ", ".join(f"{k!r}: {list(v)!r}" for k, v in first.items()) + "})")
+                lines.append("    _dr2 = dependent_required({" + ", ".join(f"{k!r}: {list(v)!r}" for k, v in second.items()) + "})")
+            elif self.dep_req and getattr(self, "dep_req_groups", None):
                 # group form: every member of a group requires all the others (self.dep_req holds the same rule, expanded)
                 lines.append("    _dr = dependent_required(" + ", ".join(repr(list(g)) for g in self.dep_req_groups) + ")")
             elif self.dep_req:
